@@ -105,16 +105,25 @@ theorem tchar_plain {c : Nat} (h : tchar c = true) : plain c = true := by
 theorem tchar_ne {c : Nat} (h : tchar c = true) : c ≠ 32 ∧ c ≠ 59 ∧ c ≠ 61 ∧ c ≠ 34 ∧ c ≠ 44 ∧ c ≠ 47 ∧ c ≠ 9 := by
   refine ⟨?_, ?_, ?_, ?_, ?_, ?_, ?_⟩ <;> (intro e; subst e; revert h; decide)
 
-/-- spaces only -/
-def spOnly (s : Bytes) : Bool := s.all (· == 32)
+/-- optional whitespace only: `*( SP / HTAB )` -/
+def owsOnly (s : Bytes) : Bool := s.all isOWSb
 
-theorem spOnly_plain {s : Bytes} (h : spOnly s = true) : s.all plain = true := by
-  unfold spOnly at h
-  rw [List.all_eq_true] at h ⊢
+theorem isOWSb_iff {c : Nat} : isOWSb c = true ↔ c = 32 ∨ c = 9 := by
+  simp [isOWSb]
+
+theorem owsOnly_cons {c : Nat} {cs : Bytes} (h : owsOnly (c :: cs) = true) : (c = 32 ∨ c = 9) ∧ owsOnly cs = true := by
+  simp only [owsOnly, List.all_cons, Bool.and_eq_true] at h
+  exact ⟨isOWSb_iff.1 h.1, h.2⟩
+
+theorem owsOnly_mem {s : Bytes} (h : owsOnly s = true) {x : Nat} (hx : x ∈ s) : x = 32 ∨ x = 9 :=
+  isOWSb_iff.1 (List.all_eq_true.1 h x hx)
+
+theorem owsOnly_isOWS {s : Bytes} : owsOnly s = isOWS s := rfl
+
+theorem owsOnly_plain {s : Bytes} (h : owsOnly s = true) : s.all plain = true := by
+  rw [List.all_eq_true]
   intro x hx
-  have := h x hx
-  simp only [beq_iff_eq] at this
-  subst this; decide
+  rcases owsOnly_mem h hx with rfl | rfl <;> decide
 
 theorem token_plain {s : Bytes} (h : isToken s = true) : s.all plain = true := by
   unfold isToken at h
@@ -168,15 +177,15 @@ theorem digdot_plain {s : Bytes} (h : s.all (fun c => isDigit c || c == 46) = tr
     simp [a1, a2, a3]
   · decide
 
-/-- a strictly formed parameter: in the grammar, and its optional whitespace is made of spaces -/
-def Param.strict (p : Param) : Prop := wfParam p = true ∧ spOnly p.ows1 = true ∧ spOnly p.ows2 = true
+/-- a parameter of the grammar, with its whitespace facts unpacked -/
+def Param.strict (p : Param) : Prop := wfParam p = true ∧ owsOnly p.ows1 = true ∧ owsOnly p.ows2 = true
 
 theorem bodyRun_param (p : Param) (h : p.strict) : bodyRun (renderParam p) false false = some (false, false) := by
   obtain ⟨hwf, h1, h2⟩ := h
   unfold renderParam
   have hsemi : ([59] : Bytes).all plain = true := by decide
   have hpre : (p.ows1 ++ [59] ++ p.ows2).all plain = true :=
-    all_append_plain (all_append_plain (spOnly_plain h1) hsemi) (spOnly_plain h2)
+    all_append_plain (all_append_plain (owsOnly_plain h1) hsemi) (owsOnly_plain h2)
   rw [bodyRun_append, bodyRun_plain _ hpre]
   simp only [Option.bind_some]
   unfold wfParam at hwf
@@ -273,7 +282,7 @@ theorem rangeChar_plain {c : Nat} (h : tchar c = true ∨ c = 47) : plain c = tr
 
 /-- a strictly formed element -/
 def Elem.strict (e : Elem) : Prop :=
-  wfElem e = true ∧ spOnly e.lead = true ∧ spOnly e.trail = true ∧ ∀ p ∈ e.params, p.strict
+  wfElem e = true ∧ owsOnly e.lead = true ∧ owsOnly e.trail = true ∧ ∀ p ∈ e.params, p.strict
 
 /-- what `forEachMediaRange` hands over for a non-empty element: everything but the leading spaces -/
 def bodyOf (e : Elem) : Bytes := e.rng ++ renderParams e.params ++ e.trail
@@ -283,13 +292,13 @@ theorem strict_range {e : Elem} (h : e.strict) (hr : e.rng ≠ []) : isRange e.r
   unfold wfElem at this
   simp only [Bool.and_eq_true] at this
   have hr' : (e.rng == []) = false := by simpa using hr
-  simpa [hr'] using this.1.1.2
+  simpa [hr'] using this.1.2
 
 theorem strict_empty {e : Elem} (h : e.strict) (hr : e.rng = []) : e.params = [] := by
   have := h.1
   unfold wfElem at this
   simp only [Bool.and_eq_true] at this
-  simpa [hr] using this.1.1.2
+  simpa [hr] using this.1.2
 
 theorem rangesGo_lead_acc (s : Bytes) (saw : Bool) (acc : Bytes) :
     rangesGo s (.lead saw) acc = rangesGo s (.lead saw) [] := by
@@ -297,16 +306,16 @@ theorem rangesGo_lead_acc (s : Bytes) (saw : Bool) (acc : Bytes) :
   | nil => simp [rangesGo]
   | cons c cs => simp [rangesGo]
 
-theorem rangesGo_spaces (sp rest : Bytes) (saw : Bool) (h : spOnly sp = true) :
+theorem rangesGo_spaces (sp rest : Bytes) (saw : Bool) (h : owsOnly sp = true) :
     rangesGo (sp ++ rest) (.lead saw) [] = rangesGo rest (.lead (saw || sp != [])) [] := by
   induction sp generalizing saw with
   | nil => simp
   | cons c cs ih =>
-    simp only [spOnly, List.all_cons, Bool.and_eq_true, beq_iff_eq] at h
-    obtain ⟨rfl, hcs⟩ := h
-    simp only [List.cons_append, rangesGo, beq_self_eq_true, if_true]
+    obtain ⟨hc, hcs⟩ := owsOnly_cons h
+    have hc' : isOWSb c = true := isOWSb_iff.2 hc
+    simp only [List.cons_append, rangesGo, hc', if_true]
     rw [ih true hcs]
-    have : (32 :: cs != []) = true := by simp
+    have : (c :: cs != []) = true := by simp
     simp [this]
 
 /-- the scan of a non-empty element that is followed by a comma -/
@@ -316,9 +325,9 @@ theorem rangesGo_elem_comma (e : Elem) (h : e.strict) (hr : e.rng ≠ []) (more 
   obtain ⟨c, cs, hcs⟩ := List.exists_cons_of_ne_nil hrne
   have hc : tchar c = true ∨ c = 47 := hchars c (by simp [hcs])
   have hcplain := rangeChar_plain hc
-  have hc32 : (c == 32) = false := by
+  have hc32 : isOWSb c = false := by
     rcases hc with hc | rfl
-    · have := (tchar_ne hc).1; simpa using this
+    · have := tchar_ne hc; simp [isOWSb, this.1, this.2.2.2.2.2.2]
     · decide
   have hstep : bodyStep c false false = .cont false false := by
     simp only [plain, Bool.and_eq_true, bne_iff_ne, ne_eq] at hcplain
@@ -334,7 +343,7 @@ theorem rangesGo_elem_comma (e : Elem) (h : e.strict) (hr : e.rng ≠ []) (more 
     simp only [Option.bind_some]
     rw [bodyRun_append, bodyRun_params _ h.2.2.2]
     simp only [Option.bind_some]
-    exact bodyRun_plain _ (spOnly_plain h.2.2.1)
+    exact bodyRun_plain _ (owsOnly_plain h.2.2.1)
   have hre : renderElem e ++ 44 :: more = e.lead ++ (c :: ((cs ++ renderParams e.params ++ e.trail) ++ 44 :: more)) := by
     simp [renderElem, hcs, List.append_assoc]
   rw [hre, rangesGo_spaces _ _ _ h.2.1]
@@ -350,9 +359,9 @@ theorem rangesGo_elem_last (e : Elem) (h : e.strict) (hr : e.rng ≠ []) (saw : 
   obtain ⟨c, cs, hcs⟩ := List.exists_cons_of_ne_nil hrne
   have hc : tchar c = true ∨ c = 47 := hchars c (by simp [hcs])
   have hcplain := rangeChar_plain hc
-  have hc32 : (c == 32) = false := by
+  have hc32 : isOWSb c = false := by
     rcases hc with hc | rfl
-    · have := (tchar_ne hc).1; simpa using this
+    · have := tchar_ne hc; simp [isOWSb, this.1, this.2.2.2.2.2.2]
     · decide
   have hstep : bodyStep c false false = .cont false false := by
     simp only [plain, Bool.and_eq_true, bne_iff_ne, ne_eq] at hcplain
@@ -368,7 +377,7 @@ theorem rangesGo_elem_last (e : Elem) (h : e.strict) (hr : e.rng ≠ []) (saw : 
     simp only [Option.bind_some]
     rw [bodyRun_append, bodyRun_params _ h.2.2.2]
     simp only [Option.bind_some]
-    exact bodyRun_plain _ (spOnly_plain h.2.2.1)
+    exact bodyRun_plain _ (owsOnly_plain h.2.2.1)
   have hre : renderElem e = e.lead ++ (c :: ((cs ++ renderParams e.params ++ e.trail) ++ [])) := by
     simp [renderElem, hcs, List.append_assoc]
   rw [hre, rangesGo_spaces _ _ _ h.2.1]
@@ -382,12 +391,12 @@ theorem rangesGo_empty_comma (e : Elem) (h : e.strict) (hr : e.rng = []) (more :
   have hp := strict_empty h hr
   have hre : renderElem e ++ 44 :: more = (e.lead ++ e.trail) ++ 44 :: more := by
     simp [renderElem, hr, hp, renderParams]
-  have hsp : spOnly (e.lead ++ e.trail) = true := by
+  have hsp : owsOnly (e.lead ++ e.trail) = true := by
     have h1 := h.2.1; have h2 := h.2.2.1
-    unfold spOnly at *
+    unfold owsOnly at *
     simp [List.all_append, h1, h2]
   rw [hre, rangesGo_spaces _ _ _ hsp]
-  simp [rangesGo, bodyStep]
+  simp [rangesGo, bodyStep, show isOWSb 44 = false by decide]
 
 /-- an empty last element -/
 theorem rangesGo_empty_last (e : Elem) (h : e.strict) (hr : e.rng = []) (saw : Bool) :
@@ -395,9 +404,9 @@ theorem rangesGo_empty_last (e : Elem) (h : e.strict) (hr : e.rng = []) (saw : B
   have hp := strict_empty h hr
   have hre : renderElem e = (e.lead ++ e.trail) ++ [] := by
     simp [renderElem, hr, hp, renderParams]
-  have hsp : spOnly (e.lead ++ e.trail) = true := by
+  have hsp : owsOnly (e.lead ++ e.trail) = true := by
     have h1 := h.2.1; have h2 := h.2.2.1
-    unfold spOnly at *
+    unfold owsOnly at *
     simp [List.all_append, h1, h2]
   rw [hre, rangesGo_spaces _ _ _ hsp]
   simp [rangesGo]
